@@ -43,6 +43,8 @@ def read_traces(prefix, limit=None, rng=None):
                     ev = json.loads(line)
                 except ValueError:
                     continue
+                if "sqlgen" in ev:
+                    continue
                 cur.append(ev)
                 if ev["depth"] == 0:
                     key = hashlib.sha1(json.dumps([{k: v for k, v in e.items() if k != "seq"} for e in cur], sort_keys=True).encode()).hexdigest()
@@ -130,3 +132,59 @@ def run(prop, vd, stats, tr, prefix, tier, laws=("columns", "rows", "walk")):
                           "trace": traces[ti]}, tag="trace:%s:%s" % (law, traces[ti][idx]["kind"]))
         stats["trace:accepted"] += len(traces) - len(rej)
     return out
+
+
+def read_sqlgen_traces(prefix, limit=None, rng=None):
+    """events of the WITH-sequencing machine, grouped per statement (per CTE cache); cache-less events are traces of one"""
+    seen, out = set(), []
+    for fn in sorted(glob.glob(prefix + ".*")):
+        groups = {}
+        order = []
+        with open(fn) as f:
+            for line in f:
+                try:
+                    ev = json.loads(line)
+                except ValueError:
+                    continue
+                if "sqlgen" not in ev:
+                    continue
+                if ev["cache"] == 0:
+                    order.append([ev])
+                else:
+                    k = ev["cache"]
+                    if k not in groups:
+                        groups[k] = []
+                        order.append(groups[k])
+                    groups[k].append(ev)
+        for tr_ in order:
+            key = hashlib.sha1(json.dumps([{k: v for k, v in e.items() if k not in ("seq", "cache")} for e in tr_], sort_keys=True).encode()).hexdigest()
+            if key not in seen:
+                seen.add(key)
+                out.append(tr_)
+    if limit and len(out) > limit:
+        out = (rng or random.Random(common.seed())).sample(out, limit)
+    return out
+
+
+def validate_sqlgen(traces, tr, what):
+    if not traces:
+        return {}
+    sc = common.spec_copy()
+    path = os.path.join(sc, "sqlgen_traces_%d.json" % len(tr.runs))
+    with open(path, "w") as f:
+        json.dump(traces, f)
+    cfg = os.path.join(sc, "sqlgen_traces_%d.cfg" % len(tr.runs))
+    common.write_cfg(cfg, spec="TSpec", constants={})
+    res = common.run_tlc(os.path.join(sc, "Trace_SqlGen.tla"), cfg, workers=16, timeout=900, cwd=sc, env={"TRACE_FILE": path})
+    common.tlc_or_die(res, what)
+    tr.add(what, res)
+    rej, acc = {}, 0
+    for ln in res.lines:
+        m = re.match(r"^REJ (\S+) (\d+) (\d+)$", ln)
+        if m:
+            rej[int(m.group(2)) - 1] = (m.group(1), int(m.group(3)) - 1)
+        elif ln.startswith("ACC "):
+            acc += 1
+    if acc + len(rej) != len(traces):
+        raise common.MachineryError("%s: %d traces but %d accepted + %d rejected" % (what, len(traces), acc, len(rej)))
+    return rej
